@@ -381,4 +381,6 @@ def run(ctx):
     lengths_rule(ctx, repo)
     monotonic_rule(ctx, repo)
     start_index_rule(ctx, repo)
+    from sa.rules import memo
+    memo.run_for(ctx, repo, 'C11')
     return report.finish(ctx, EXPLANATION)
